@@ -21,6 +21,7 @@ THEOREMS = [
     'OpenHTF.AdbFrame.c13_rejects_short_or_empty_header',
     'OpenHTF.AdbFrame.c13_payload_follows_header_even_if_expired',
     'OpenHTF.AdbFrame.c13_writers_do_not_interleave',
+    'OpenHTF.AdbFrame.c13_readers_do_not_interleave',
 ]
 RULE = ('writes: 7 commands x boundary args {0,1,2^31,2^32-1} x payload lengths {0,1,2,255,256,4095,4096} x timeout '
         '{live, none, expired before, expiring between header and payload}; reads: every valid frame, every single-field '
@@ -379,5 +380,5 @@ MANIFEST = {
             'enumerated orders.',
     'note': 'Trusted: Lean kernel + standard axioms; fake/gated transports; Lean driver. Modelled not verified: '
             'struct.pack/unpack (compared byte-for-byte on every case), threading.Lock (mutual exclusion assumed in the '
-            'writer LTS). The reader lock uses the same discipline; its interleavings are exercised by the tie only.',
+            'writer LTS). The reader lock is a second LTS (header read, optional payload read, release at any point for exceptions) with its own theorem.',
 }
